@@ -1,0 +1,84 @@
+//go:build verif
+
+// Contracts for govc (contract-based deductive verification, see /verif/DESIGN.md).
+// Comment-only file: it contains no code and is compiled only under the verif tag.
+
+package rsm
+
+// ---------------------------------------------------------------- membership (C07)
+
+// addressEqual is a pure function of its two strings (case/space-insensitive equality);
+// its body (strings.EqualFold/TrimSpace) is not verified.
+//@ func addressEqual [C07]
+//@ trusted strings.EqualFold/TrimSpace are outside the subset; modelled as an uninterpreted relation
+//@ ensures result == ufb("addrEq", addr1, addr2)
+
+//@ pred (m *membership) wfm() := m.members.Addresses != nil && m.members.NonVotings != nil && m.members.Witnesses != nil && m.members.Removed != nil &&
+//@   m.members.Addresses != m.members.NonVotings && m.members.Addresses != m.members.Witnesses && m.members.NonVotings != m.members.Witnesses
+
+// D: the four id sets are pairwise disjoint
+//@ pred (m *membership) disjoint() := forall k uint64 ::
+//@   !(k in m.members.Addresses && k in m.members.NonVotings) && !(k in m.members.Addresses && k in m.members.Witnesses) &&
+//@   !(k in m.members.NonVotings && k in m.members.Witnesses) &&
+//@   (k in m.members.Removed ==> !(k in m.members.Addresses) && !(k in m.members.NonVotings) && !(k in m.members.Witnesses))
+
+//@ pred isAdd(t pb.ConfigChangeType) := t == pb.AddNode || t == pb.AddNonVoting || t == pb.AddWitness
+
+//@ pred (m *membership) addrInUse(a string) :=
+//@   (exists k uint64 :: k in m.members.Addresses && ufb("addrEq", m.members.Addresses[k], a)) ||
+//@   (exists k uint64 :: k in m.members.NonVotings && ufb("addrEq", m.members.NonVotings[k], a)) ||
+//@   (exists k uint64 :: k in m.members.Witnesses && ufb("addrEq", m.members.Witnesses[k], a))
+
+//@ pred (m *membership) promote(cc pb.ConfigChange) := cc.Type == pb.AddNode && cc.ReplicaID in m.members.NonVotings &&
+//@   ufb("addrEq", m.members.NonVotings[cc.ReplicaID], cc.Address)
+
+//@ pred (m *membership) sameKind(cc pb.ConfigChange) := (cc.Type == pb.AddNode && cc.ReplicaID in m.members.Addresses) ||
+//@   (cc.Type == pb.AddNonVoting && cc.ReplicaID in m.members.NonVotings) || (cc.Type == pb.AddWitness && cc.ReplicaID in m.members.Witnesses)
+
+//@ func (m *membership) isAddExistingMember [C07]
+//@ requires m.wfm()
+//@ ensures result == (m.sameKind(cc) || (!m.promote(cc) && isAdd(cc.Type) && m.addrInUse(cc.Address)))
+//@ loop 1 invariant forall x uint64 :: visited(x) ==> !ufb("addrEq", m.members.Addresses[x], cc.Address)
+//@ loop 2 invariant forall x uint64 :: x in m.members.Addresses ==> !ufb("addrEq", m.members.Addresses[x], cc.Address)
+//@ loop 2 invariant forall x uint64 :: visited(x) ==> !ufb("addrEq", m.members.NonVotings[x], cc.Address)
+//@ loop 3 invariant forall x uint64 :: x in m.members.Addresses ==> !ufb("addrEq", m.members.Addresses[x], cc.Address)
+//@ loop 3 invariant forall x uint64 :: x in m.members.NonVotings ==> !ufb("addrEq", m.members.NonVotings[x], cc.Address)
+//@ loop 3 invariant forall x uint64 :: visited(x) ==> !ufb("addrEq", m.members.Witnesses[x], cc.Address)
+
+//@ func (m *membership) isUpToDate [C07]
+//@ ensures result == (!m.ordered || cc.Initialize || m.members.ConfigChangeId == cc.ConfigChangeId)
+
+//@ func (m *membership) isDeleteOnlyNode [C07]
+//@ ensures result == (cc.Type == pb.RemoveNode && len(m.members.Addresses) == 1 && cc.ReplicaID in m.members.Addresses)
+
+//@ func (m *membership) handleConfigChange [C07]
+//@ requires m.wfm() && m.disjoint()
+//@ modifies m.members.ConfigChangeId, entries(m.members.Addresses), entries(m.members.NonVotings), entries(m.members.Witnesses), entries(m.members.Removed)
+//@ ensures m.wfm() && m.disjoint()
+//@ ensures result && isAdd(cc.Type) ==> !old(cc.ReplicaID in m.members.Removed)
+//@ ensures forall k uint64 :: old(k in m.members.Removed) ==> k in m.members.Removed
+//@ ensures result && cc.Type == pb.RemoveNode && old(cc.ReplicaID in m.members.Addresses) ==> old(len(m.members.Addresses)) > 1
+//@ ensures result && cc.Type == pb.AddNode ==> !old(cc.ReplicaID in m.members.Witnesses) && !old(cc.ReplicaID in m.members.Addresses) &&
+//@    (old(cc.ReplicaID in m.members.NonVotings) ==> old(ufb("addrEq", m.members.NonVotings[cc.ReplicaID], cc.Address)))
+//@ ensures result && cc.Type == pb.AddNonVoting ==> !old(cc.ReplicaID in m.members.Addresses) && !old(cc.ReplicaID in m.members.Witnesses) && !old(cc.ReplicaID in m.members.NonVotings)
+//@ ensures result && cc.Type == pb.AddWitness ==> !old(cc.ReplicaID in m.members.Addresses) && !old(cc.ReplicaID in m.members.NonVotings) && !old(cc.ReplicaID in m.members.Witnesses)
+//@ ensures result && isAdd(cc.Type) && !old(m.promote(cc)) ==> !old(m.addrInUse(cc.Address))
+//@ ensures m.ordered && !cc.Initialize && cc.ConfigChangeId != old(m.members.ConfigChangeId) ==> !result
+//@ ensures result ==> isAdd(cc.Type) || cc.Type == pb.RemoveNode
+//@ ensures !result ==> m.members.ConfigChangeId == old(m.members.ConfigChangeId) &&
+//@    (forall k uint64 :: (k in m.members.Addresses) == old(k in m.members.Addresses) && (k in m.members.NonVotings) == old(k in m.members.NonVotings) &&
+//@        (k in m.members.Witnesses) == old(k in m.members.Witnesses) && (k in m.members.Removed) == old(k in m.members.Removed) &&
+//@        m.members.Addresses[k] == old(m.members.Addresses[k]) && m.members.NonVotings[k] == old(m.members.NonVotings[k]) && m.members.Witnesses[k] == old(m.members.Witnesses[k]))
+//@ ensures result ==> m.members.ConfigChangeId == index
+//@ ensures result && cc.Type == pb.AddNode ==> cc.ReplicaID in m.members.Addresses && m.members.Addresses[cc.ReplicaID] == cc.Address && !(cc.ReplicaID in m.members.NonVotings) &&
+//@    (forall k uint64 :: k != cc.ReplicaID ==> (k in m.members.Addresses) == old(k in m.members.Addresses) && (k in m.members.NonVotings) == old(k in m.members.NonVotings)) &&
+//@    (forall k uint64 :: (k in m.members.Witnesses) == old(k in m.members.Witnesses) && (k in m.members.Removed) == old(k in m.members.Removed))
+//@ ensures result && cc.Type == pb.AddNonVoting ==> cc.ReplicaID in m.members.NonVotings && m.members.NonVotings[cc.ReplicaID] == cc.Address &&
+//@    (forall k uint64 :: k != cc.ReplicaID ==> (k in m.members.NonVotings) == old(k in m.members.NonVotings)) &&
+//@    (forall k uint64 :: (k in m.members.Addresses) == old(k in m.members.Addresses) && (k in m.members.Witnesses) == old(k in m.members.Witnesses) && (k in m.members.Removed) == old(k in m.members.Removed))
+//@ ensures result && cc.Type == pb.AddWitness ==> cc.ReplicaID in m.members.Witnesses && m.members.Witnesses[cc.ReplicaID] == cc.Address &&
+//@    (forall k uint64 :: k != cc.ReplicaID ==> (k in m.members.Witnesses) == old(k in m.members.Witnesses)) &&
+//@    (forall k uint64 :: (k in m.members.Addresses) == old(k in m.members.Addresses) && (k in m.members.NonVotings) == old(k in m.members.NonVotings) && (k in m.members.Removed) == old(k in m.members.Removed))
+//@ ensures result && cc.Type == pb.RemoveNode ==> cc.ReplicaID in m.members.Removed && !(cc.ReplicaID in m.members.Addresses) && !(cc.ReplicaID in m.members.NonVotings) && !(cc.ReplicaID in m.members.Witnesses) &&
+//@    (forall k uint64 :: k != cc.ReplicaID ==> (k in m.members.Addresses) == old(k in m.members.Addresses) && (k in m.members.NonVotings) == old(k in m.members.NonVotings) &&
+//@         (k in m.members.Witnesses) == old(k in m.members.Witnesses) && (k in m.members.Removed) == old(k in m.members.Removed))
